@@ -228,6 +228,11 @@ def build(d, route="event", rng=None, lambda_backend=True, order=None, reuse=Fal
         r = route
         if route == "mixed":
             r = ["event", "legacy", "incremental", "event_tr", "event_tr", "incr_legacy", "incr_tr", "event_solo"][int(rng.integers(0, 8))]
+        if r == "split" and not single:
+            # an Event of k transitions entered as k single-transition Events with the same rate (theorem C12_split_event)
+            for t in p["trans"]:
+                ev_objs.append((p["_idx"], pg.Event(rate=p["rate"], transition_list=[mk_tr(t)])))
+            continue
         if r == "legacy" and single:
             tr = p["trans"][0]
             if tr["ty"] == "T":
